@@ -1,6 +1,7 @@
 //! Independent SCALE V14 metadata encoder / decoder, written from the layout text of property C06.
 //! Uses neither `parity-scale-codec` nor any derive: explicit tag tables, own compact integers.
 
+use crate::lit;
 use scale_info::{
     form::PortableForm, Field, Path, PortableRegistry, PortableType, Type, TypeDef, TypeDefArray,
     TypeDefBitSequence, TypeDefCompact, TypeDefComposite, TypeDefPrimitive, TypeDefSequence,
@@ -272,7 +273,7 @@ impl<'a> R<'a> {
         let ty = self.compact()?;
         let type_name = self.opt_string()?;
         let docs = self.strings()?;
-        Ok(Field::new(name, ty.into(), type_name, docs))
+        Ok(lit::field(name, ty.into(), type_name, docs))
     }
     fn fields(&mut self) -> DResult<Vec<Field<PortableForm>>> {
         let n = self.compact()?;
@@ -283,7 +284,7 @@ impl<'a> R<'a> {
         Ok(v)
     }
     pub fn ty(&mut self) -> DResult<PType> {
-        let path = Path::from_segments_unchecked(self.strings()?);
+        let path = path_of(self.strings()?);
         let np = self.compact()?;
         let mut params = Vec::new();
         for _ in 0..np {
@@ -293,10 +294,10 @@ impl<'a> R<'a> {
                 1 => Some(self.compact()?.into()),
                 _ => return Err("bad option tag".into()),
             };
-            params.push(TypeParameter::<PortableForm>::new_portable(name, ty));
+            params.push(lit::param(name, ty));
         }
         let def: TypeDef<PortableForm> = match self.byte()? {
-            0 => TypeDefComposite::new(self.fields()?).into(),
+            0 => lit::composite(self.fields()?).into(),
             1 => {
                 let n = self.compact()?;
                 let mut vs = Vec::new();
@@ -305,15 +306,15 @@ impl<'a> R<'a> {
                     let fields = self.fields()?;
                     let index = self.byte()?;
                     let docs = self.strings()?;
-                    vs.push(Variant::new(name, fields, index, docs));
+                    vs.push(lit::variant(name, fields, index, docs));
                 }
-                TypeDefVariant::new(vs).into()
+                lit::variants(vs).into()
             }
-            2 => TypeDefSequence::new(self.compact()?.into()).into(),
+            2 => lit::sequence(self.compact()?.into()).into(),
             3 => {
                 let l = self.take(4)?;
                 let len = u32::from_le_bytes([l[0], l[1], l[2], l[3]]);
-                TypeDefArray::new(len, self.compact()?.into()).into()
+                lit::array(len, self.compact()?.into()).into()
             }
             4 => {
                 let n = self.compact()?;
@@ -321,22 +322,22 @@ impl<'a> R<'a> {
                 for _ in 0..n {
                     v.push(self.compact()?.into());
                 }
-                TypeDefTuple::new_portable(v).into()
+                lit::tuple(v).into()
             }
             5 => {
                 let t = self.byte()? as usize;
-                PRIMS.get(t).ok_or("bad primitive tag")?.0.clone().into()
+                lit::primitive(PRIMS.get(t).ok_or("bad primitive tag")?.0.clone())
             }
-            6 => TypeDefCompact::new(self.compact()?.into()).into(),
+            6 => lit::compact(self.compact()?.into()).into(),
             7 => {
                 let s = self.compact()?;
                 let o = self.compact()?;
-                TypeDefBitSequence::new_portable(s.into(), o.into()).into()
+                lit::bits(s.into(), o.into()).into()
             }
             _ => return Err("bad typedef tag".into()),
         };
         let docs = self.strings()?;
-        Ok(Type::new(path, params, def, docs))
+        Ok(lit::ty(path, params, def, docs))
     }
     pub fn registry(&mut self) -> DResult<PortableRegistry> {
         let n = self.compact()?;
@@ -344,7 +345,7 @@ impl<'a> R<'a> {
         for _ in 0..n {
             let id = self.compact()?;
             let ty = self.ty()?;
-            types.push(PortableType::new(id, ty));
+            types.push(lit::entry(id, ty));
         }
         Ok(PortableRegistry { types })
     }
@@ -355,4 +356,10 @@ pub fn decode_registry(b: &[u8]) -> DResult<(PortableRegistry, usize)> {
     let mut r = R::new(b);
     let reg = r.registry()?;
     Ok((reg, r.pos))
+}
+
+/// a portable path built through the public field (no library constructor touches the segments)
+#[allow(dead_code)]
+fn path_of<I: IntoIterator<Item = String>>(segments: I) -> scale_info::Path<scale_info::form::PortableForm> {
+    scale_info::Path { segments: segments.into_iter().collect() }
 }
